@@ -202,8 +202,54 @@ def lane_balance(a, spec):
     for t in range(6 if spec["tier"] == "quick" else 120):
         world = gen.World(rng, nkeys=8)
         world.odd_reward_prob = rng.choice([0.0, 0.3])
+        everything = wm.Wallet({pk: sk for sk, pk in world.keys}, [], {pk: "n" for _s, pk in world.keys})
         for step in range(rng.randint(2, 6)):
-            world.grow(rng.randint(1, 6), rng, tx_prob=0.7)
+            for _b in range(rng.randint(1, 6)):
+                # (a long-running process asks for its balance after every block -- the miner does -- also across reorganisations)
+                world.grow(1, rng, tx_prob=0.7)
+                h1 = world.cs.current_chain_hash
+                want1 = sum(v for (v, k) in world.ledger(h1).values() if k in everything.keypairs)
+                a.n += 1
+                a.inc("balances_compared_after_every_block")
+                try:
+                    got1 = everything.get_balance(world.cs)
+                except Exception as e:
+                    got1 = repr(e)
+                if got1 != want1:
+                    a.v("balance-differs-from-unspent-outputs", "asked after every block of a growing (and reorganising) chain: get_balance=%s, "
+                        "unspent outputs paying wallet keys=%d at height %d" % (got1, want1, world.chain.blocks[h1].height),
+                        {"lane": "balance", "blocks": gen.blocks_hex(world, world.chain.order[1:]),
+                         "keys": [pk.hex() for pk in everything.keypairs], "asked_after_every_block": True})
+                    break
+            # ... and a competing branch (rewards only) that forks off one to three blocks below the head and overtakes it
+            try:
+                hd = world.cs.current_chain_hash
+                fork_at = hd
+                for _d in range(rng.randint(1, 3)):
+                    if world.chain.blocks[fork_at].prev in world.chain.blocks:
+                        fork_at = world.chain.blocks[fork_at].prev
+                cur, hh = fork_at, world.chain.blocks[hd].height
+                while world.chain.blocks[cur].height <= hh:
+                    par = world.chain.blocks[cur]
+                    rb_, real_ = world.assemble(cur, [], par.ts + 7, rng.choice(world.keys)[1], route="ref")
+                    if world.accept(rb_, real_, now=rb_.ts) is None:
+                        break
+                    cur = rb_.id()
+                    h1 = world.cs.current_chain_hash
+                    want1 = sum(v for (v, k) in world.ledger(h1).values() if k in everything.keypairs)
+                    a.n += 1
+                    a.inc("balances_compared_after_every_block")
+                    got1 = everything.get_balance(world.cs)
+                    if got1 != want1:
+                        a.v("balance-differs-from-unspent-outputs", "asked after every block while a competing branch overtakes the head: "
+                            "get_balance=%s, unspent outputs paying wallet keys=%d at height %d" % (got1, want1, world.chain.blocks[h1].height),
+                            {"lane": "balance", "blocks": gen.blocks_hex(world, world.chain.order[1:]),
+                             "keys": [pk.hex() for pk in everything.keypairs], "asked_after_every_block": True})
+                        break
+                if world.cs.current_chain_hash == cur and cur != hd:
+                    a.inc("reorganisations_between_balance_queries")
+            except Exception:
+                pass
             head = world.cs.current_chain_hash
             led = world.ledger(head)
             for _ in range(4):
